@@ -15,6 +15,9 @@
       [22, T, []] / [22, T, [v]]  nil / non-nil pointer
       [20, w, []] / [20, w, [v]]  nil / non-nil interface-typed slot (w = which interface type)
       [25, [v,...]]               struct
+      [28, T, [v], path]          an INTERIOR pointer: a non-nil *T pointing into the value itself, to the
+                                  part reached from the root by path; v is that part once more (the tree
+                                  reading: the pointee is counted again); path is for the Go builder only
 
     SHARING: a slice, map or pointer node may carry one more trailing element, an
     integer id > 0: the Go side builds the node once per id and uses the SAME
@@ -91,6 +94,12 @@ Fixpoint dec (v : val) : option value :=
       else if k =? 20 then
         match rest with
         | [_; VL o] => match dec_opt dec o with Some o => Some (VIface o) | None => None end
+        | _ => None
+        end
+      else if k =? 28 then
+        (* interior pointer [28, T, [v], path]: a non-nil pointer; v is the part it points to *)
+        match rest with
+        | [_; VL [x]; VL _] => match dec x with Some y => Some (VPtr (Some y)) | None => None end
         | _ => None
         end
       else if k =? 25 then
@@ -208,6 +217,15 @@ Fixpoint dec_l (v : val) (lab : val) {struct v} : option lvalue :=
             | _, _ => None
             end
           | _ => None
+          end
+        else if k =? 28 then
+          match rest, kids with
+          | [_; VL [x]; VL _], [VL [_; lb]] =>
+              match dec_l x lb with
+              | Some y => Some (LPtr ty (Some y))
+              | None => None
+              end
+          | _, _ => None
           end
         else if k =? 25 then
           match rest with
@@ -339,6 +357,11 @@ Fixpoint dec_g (v : val) : option gvalue :=
       else if k =? 20 then
         match rest with
         | [_; VL o] => match dec_opt_g dec_g o with Some o => Some (GIface o) | None => None end
+        | _ => None
+        end
+      else if k =? 28 then
+        match rest with
+        | [_; VL [x]; VL _] => match dec_g x with Some y => Some (GPtr (Some y)) | None => None end
         | _ => None
         end
       else if k =? 26 then
